@@ -119,8 +119,15 @@ fn handshake_stage_machine_survives_replays_and_never_completes_twice_or_with_it
                 let before_stage = objs[oi].st.stage();
                 let mut out = MsgBuffer::new(100);
                 out.clone_from(&forged);
-                let res = panic::catch_unwind(AssertUnwindSafe(|| objs[oi].st.handle_init(&mut out).is_ok()));
+                // 0: Ok, 1: recoverable error, 2: FATAL error (the node discards the handshake object on those)
+                let res = panic::catch_unwind(AssertUnwindSafe(|| match objs[oi].st.handle_init(&mut out) { Ok(_) => 0u8, Err(Error::CryptoInitFatal(_)) => 2, Err(_) => 1 }));
                 objs[oi].trace.push(format!("recv FORGED ({})", ["bit flip", "truncation", "random bytes"][kind as usize]));
+                if matches!(res, Ok(2)) {
+                    fail("C01", &mut failing, format!("a FORGED handshake datagram ({} bytes) makes object {} (stage {}) report a FATAL handshake error - the node then discards the handshake in progress - after [{}]", forged.len(), oi, before_stage, objs[oi].trace.join(", ")));
+                    objs[oi].dead = true;
+                    continue;
+                }
+                let res = res.map(|c| c == 0);
                 match res {
                     Err(_) => { fail("C08", &mut failing, format!("handle_init panics on a forged datagram, object {} after [{}]", oi, objs[oi].trace.join(", "))); objs[oi].dead = true; }
                     Ok(true) => { fail("C01,C08", &mut failing, format!("a FORGED handshake datagram ({} bytes) is accepted (answered with {} bytes) by object {} in stage {} after [{}]; it was made from the {}-byte datagram \"{}\"", forged.len(), out.len(), oi, before_stage, objs[oi].trace.join(", "), pool[mi].0.len(), pool[mi].2)); }
